@@ -57,7 +57,7 @@ func main() {
 		Setup:            func(c *engine.Ctx) { elkrun.Init() },
 		Run:              run,
 		CaseTimeout:      10 * time.Minute,
-		QuickDeadline:    6 * time.Minute,
+		QuickDeadline:    12 * time.Minute,
 		ThoroughDeadline: 40 * time.Minute,
 	})
 }
